@@ -1,0 +1,61 @@
+//go:build verif
+
+package throttle
+
+import "sort"
+
+// Verification-only exports (build tag `verif`) for property C16: the life cycle of the limiters
+// map (generations, maintenance) driven by a logical clock. Nothing here is compiled into normal
+// builds.
+
+// VerifStopMaintenance cancels the plugin's context, so the wall-clock maintenance goroutine of
+// the limiters map returns. The in-memory limiters do not use the context: Do keeps working.
+func VerifStopMaintenance(p *Plugin) {
+	p.cancel()
+}
+
+// VerifSetCurGen sets the current generation of the limiters map (µs).
+func VerifSetCurGen(p *Plugin, gen int64) {
+	p.limitersMap.mu.Lock()
+	p.limitersMap.curGen = gen
+	p.limitersMap.mu.Unlock()
+}
+
+// VerifMaintenanceOnce runs ONE iteration of limitersMap.maintenance with nowTs in place of
+// time.Now().UnixMicro(): the statements between l.mu.Lock() and l.mu.Unlock() of the
+// `case <-ticker.C:` branch, verbatim (checks/p_C16.py compares both texts on every run).
+// It returns the sorted keys the iteration removed.
+func VerifMaintenanceOnce(p *Plugin, nowTs int64) []string {
+	l := p.limitersMap
+	var removed []string
+	l.mu.Lock()
+	// find expired limiters and remove them
+	l.curGen = nowTs
+	for key, lim := range l.lims {
+		if nowTs-lim.gen.Load() < l.limitersExp {
+			continue
+		}
+		delete(l.lims, key)
+		delete(l.limsCfg, key)
+		removed = append(removed, key)
+	}
+	mapSize := float64(len(l.lims))
+	l.mapSizeMetric.Set(mapSize)
+	l.mu.Unlock()
+	sort.Strings(removed)
+	return removed
+}
+
+// VerifGens returns the generation of every limiter of the map, sorted by key.
+func VerifGens(p *Plugin) (keys []string, gens []int64) {
+	p.limitersMap.mu.RLock()
+	defer p.limitersMap.mu.RUnlock()
+	for k := range p.limitersMap.lims {
+		keys = append(keys, k)
+	}
+	sort.Strings(keys)
+	for _, k := range keys {
+		gens = append(gens, p.limitersMap.lims[k].gen.Load())
+	}
+	return keys, gens
+}
